@@ -49,7 +49,7 @@ class ProjectError(Exception):
 
 # ----------------------------------------------------------------------------- commands
 
-def run_command(cmd, cwd, read_file):
+def run_command(cmd, cwd, read_file, env_file=None):
     """-> (exit code, stdout bytes tuple) for the command vocabulary; read_file(path) -> tuple | None"""
     if not is_conc(cmd):
         raise ProjectError('symbolic command text')
@@ -63,6 +63,11 @@ def run_command(cmd, cwd, read_file):
         return 0, ()
     if c == b'false':
         return 1, ()
+    if c == b'printenv TXTPP_FILE':
+        v = env_file() if env_file is not None else None
+        if v is None:
+            return 1, ()
+        return 0, tuple(v) + (10,)
     if parts[0] == b'cat' and len(parts) >= 2 and all(parts[1:]):
         out = ()
         code = 0
@@ -182,7 +187,9 @@ def spec_project(ctx, files, dirs, inputs, recursive, mode, trailing, base=BASE)
             self._dep(arg)
 
         def run(self, ctx_, cmd):
-            code, out = run_command(tuple(cmd), self.d, lambda p: fs.get(p))
+            # TXTPP_FILE designates the source: relative to the base directory for sources below it (pinned by the repository's tests)
+            rel = self.src[len(base) + 1:] if self.src.startswith(base + b'/') else self.src
+            code, out = run_command(tuple(cmd), self.d, lambda p: fs.get(p), lambda: rel)
             ex.commands.append((self.src, bytes(cmd)))
             return out if code == 0 else None
 
@@ -338,6 +345,32 @@ def layout(ctx, name):
         }
         dirs = {b'/w'}
         return files, dirs, {'x0': syms_of((x0,)), 'x1': syms_of((x1,)), 'picks': picks}
+    elif name == 'mixed-le':
+        # sources with different line endings processed one after the other (by the same worker when there is one thread)
+        files = {
+            b'/w/a.txtpp': T(b'first\r\na') + (x0,) + T(b'\r\n'),
+            b'/w/b.txtpp': T(b'first\nb') + (x1,) + T(b'\n-TXTPP#include plain.txt\n'),
+            b'/w/c.txtpp': T(b'f\r\n-TXTPP#include plain.txt\r\n'),
+            b'/w/d.txtpp': T(b'ff\n-TXTPP#include plain.txt\n'),
+            b'/w/plain.txt': T(b'p1\r\np2\n'),
+        }
+        dirs = {b'/w'}
+    elif name == 'empty-dep':
+        # dependencies whose fresh output is EMPTY (only output-less directives / an empty source): an older non-empty output must go
+        files = {
+            b'/w/report.txt.txtpp': T(b'-TXTPP#include notes.txt\n-TXTPP#include none.txt\nr') + (x0,) + T(b'\n'),
+            b'/w/notes.txt.txtpp': T(b'// TXTPP# a comment\n#TXTPP#temp n.tmp\n#k') + (x1,) + T(b'\n'),
+            b'/w/none.txt.txtpp': T(b''),
+        }
+        dirs = {b'/w'}
+    elif name == 'envdep':
+        # TXTPP_FILE as seen by commands of sources that are reached as dependencies of an includer in a sub-directory
+        files = {
+            b'/w/d/top.txt.txtpp': T(b'-TXTPP#include inc/b.txt\n#TXTPP#run printenv TXTPP_FILE\nt') + (x0,) + T(b'\n'),
+            b'/w/d/inc/b.txt.txtpp': T(b'#TXTPP#run printenv TXTPP_FILE\nb') + (x1,) + T(b'\n-TXTPP#include deeper/c.txt\n'),
+            b'/w/d/inc/deeper/c.txt.txtpp': T(b'#TXTPP#run printenv TXTPP_FILE\n'),
+        }
+        dirs = {b'/w', b'/w/d', b'/w/d/inc', b'/w/d/inc/deeper'}
     elif name == 'tempinc':
         # a source that writes a temp file and includes it again; the tree holds the temp file and the output of an OLDER version of
         # the source (history: build, edit the body of the temp directive, do not rebuild)
@@ -400,17 +433,19 @@ def h_project(m, ctx, lay, inputs, mode='Build', recursive=False, trailing=True,
         cwd = norm(posixpath.join(BASE, cwd))
         cmd = rec['args'][-1].b
         try:
-            code, out = run_command(tuple(cmd), cwd, lambda p: env.read_file(p))
+            envs = {bytes(k.b): v.b for k, v in rec['env'] if is_conc(k.b)}
+            code, out = run_command(tuple(cmd), cwd, lambda p: env.read_file(p), lambda: envs.get(b'TXTPP_FILE'))
         except ProjectError as e:
             raise Violation('a command that is not in the source was run: %r' % (bytes(cmd) if is_conc(cmd) else cmd,), data)
         return (code, out, ())
     env.proc_handler = proc
     # a step is a mode, or (mode, inputs, recursive) when the selection changes between runs
-    steps = [(st, list(inputs), recursive) if isinstance(st, str) else (st[0], list(st[1]), st[2]) for st in (history or [mode])]
+    steps = [(st, list(inputs), recursive, trailing) if isinstance(st, str) else
+             (st[0], list(st[1]), st[2], st[3] if len(st) > 3 else trailing) for st in (history or [mode])]
     data = {'op': 'project', 'layout': lay, 'trailing': trailing, 'pre': pre, 'steps': [list(st) for st in steps], 'sym': symdesc,
             'threads': threads}
     ref_fs = dict(files)
-    for si, (md, inputs, recursive) in enumerate(steps):
+    for si, (md, inputs, recursive, trailing) in enumerate(steps):
         exp = spec_project(ctx, ref_fs, dirs, inputs, recursive, md, trailing)
         cfg = sched.mk_config(m, inputs, md, recursive, threads)
         cfg = StructV('Config', cfg.f[:7] + (trailing,))
@@ -419,6 +454,10 @@ def h_project(m, ctx, lay, inputs, mode='Build', recursive=False, trailing=True,
             r = it.call_mir(m.find_method('Txtpp', 'run'), [cfg])
         except BoundExceeded as b:
             raise Violation('hang: %s' % b, dict(data, step=si))
+        except Violation as v_:
+            if v_.msg.startswith('hang'):
+                raise Violation(v_.msg, dict(data, step=si))
+            raise
         ok_ = (r.idx == 0)
         d2 = dict(data, step=si, mode=md, expected_ok=exp.ok, expected_error=exp.error)
         if ok_ != exp.ok:
@@ -503,20 +542,35 @@ def replay(native, v):
     bad = False
     e = dict(os.environ)
     e.pop('TXTPP_FILE', None)
-    for md, inputs, recursive in d['steps']:
-        exp = spec_project(cc, ref, set(dirs), inputs, recursive, md, d['trailing'])
+    for st_ in d['steps']:
+        md, inputs, recursive = st_[0], st_[1], st_[2]
+        trailing_ = st_[3] if len(st_) > 3 else d['trailing']
+        exp = spec_project(cc, ref, set(dirs), inputs, recursive, md, trailing_)
         before = snap()
         args = [cli] + list(MODE_ARGS[md]) + ['-q', '-j', str(d.get('threads', 2))]
         if recursive:
             args.append('-r')
-        if not d['trailing'] and md != 'Clean':
+        if not trailing_ and md != 'Clean':
             args.append('-n')
         args += list(inputs)
-        try:
-            r = subprocess.run(args, cwd=real(BASE), env=e, capture_output=True, timeout=30)
-            rc = r.returncode
-        except subprocess.TimeoutExpired:
-            rc = 'HANG'
+        if not inputs:
+            # an empty input list cannot be expressed on the command line (clap defaults to "."): library entry point through the helper
+            helper = build.build_native(build.copy_repo())['replay']
+            line = 'txtpp %s %s %s %d %d %d - ' % (hexs(real(BASE).encode()), hexs(real(BASE).encode()), md, d.get('threads', 2),
+                                                   1 if trailing_ else 0, 1 if recursive else 0)
+            try:
+                r = subprocess.run([helper], input=line.rstrip() + '\n', cwd=real(BASE), env=e, capture_output=True, text=True, timeout=30)
+                ans = r.stdout.strip()
+                rc = 0 if ans == 'OK' else 1 if ans == 'ERR' else 101
+            except subprocess.TimeoutExpired:
+                rc = 'HANG'
+            args = ['<library: Txtpp::run(Config { inputs: [], mode: %s, .. })>' % md]
+        else:
+            try:
+                r = subprocess.run(args, cwd=real(BASE), env=e, capture_output=True, timeout=30)
+                rc = r.returncode
+            except subprocess.TimeoutExpired:
+                rc = 'HANG'
         after = snap()
         changed = sorted(k for k in set(before) | set(after) if before.get(k) != after.get(k))
         st = {'mode': md, 'args': args[1:], 'rc': rc, 'expected_ok': exp.ok, 'expected_error': exp.error,
@@ -555,7 +609,7 @@ ALL = ('.', True)
 
 
 def _job(prop, name, lay, steps, trailing=True, pre='none', threads=2):
-    st = [(md, list(inp), rec) for md, inp, rec in steps]
+    st = [tuple([x[0], list(x[1])] + list(x[2:])) for x in steps]
     return {'name': 'project[%s] %s' % (lay, name), 'harness': (H, 'h_project'), 'split': 16 if lay.startswith('gen') else 1,
             'params': {'lay': lay, 'inputs': st[0][1], 'recursive': st[0][2], 'trailing': trailing, 'pre': pre, 'history': st, 'threads': threads}}
 
@@ -570,6 +624,21 @@ def jobs(prop, tier):
         # (only m is named: a command that reads a generated file it does not depend on has no defined order w.r.t. that file's build)
         js.append(_job(prop, 'every %d-line source over the dependency menu (self-include = cycle)' % G, gen, [(B, ['m.txt'], False)], pre='stale'))
         js.append(_job(prop, 'same, needed-build', gen_small, [(N, ['m.txt'], False)], pre='stale'))
+    if prop in ('C03', 'C10', 'C11', 'C18'):
+        # the library entry point with an empty input list: nothing is selected, nothing is touched, the run ends
+        for md in (B, N, V, C):
+            js.append(_job(prop, 'empty input list %s' % md, 'chain', [(md, [], True)], pre='stale'))
+    if prop == 'C12':
+        for inp in (['a', 'b', 'c', 'd'], ['d', 'c', 'b', 'a'], ['c', 'd']):
+            for th in (1, 2):
+                js.append(_job(prop, 'sources with different line endings one after the other: %s threads=%d' % (','.join(inp), th), 'mixed-le',
+                               [(B, inp, False)], threads=th))
+    if prop == 'C05':
+        js.append(_job(prop, 'acyclic page that documents include/after of itself inside a write block', 'doc', [(B, ['doc.md'], False)]))
+        js.append(_job(prop, 'same, whole directory, needed-build', 'doc', [(N, ['.'], False)]))
+    if prop == 'C17':
+        js.append(_job(prop, 'TXTPP_FILE of sources reached as dependencies from a sub-directory', 'envdep', [(B, ['d/top.txt'], False)]))
+        js.append(_job(prop, 'same, recursive scan', 'envdep', [(B, ['.'], True)], threads=1))
     if prop == 'C03':
         js.append(_job(prop, 'every %d-line source over the dependency menu: m named three ways' % (G - 1), gen_small,
                        [(B, ['m.txt', 'm.txt.txtpp', './m.txt'], False)], pre='stale'))
@@ -580,6 +649,10 @@ def jobs(prop, tier):
             js.append(_job(prop, '%s page only, stale outputs' % md, 'deep', [(md, ['page.html'], False)], pre='stale'))
         for md in (B, N):
             js.append(_job(prop, '%s: every %d-line source over the dependency menu, stale outputs' % (md, G), gen, [(md, ['m.txt'], False)], pre='stale'))
+        for md in (B, N):
+            js.append(_job(prop, '%s: dependencies with an empty fresh output over older non-empty ones' % md, 'empty-dep', [(md, ['report.txt'], False)], pre='stale'))
+            js.append(_job(prop, '%s: one dependency already complete when the dependency list arrives' % md, 'multi-dep', [(md, ['x.txt', 'r'], False)], pre='stale', threads=1))
+            js.append(_job(prop, '%s: same, two complete' % md, 'multi-dep', [(md, ['z.txt', 'y.txt', 'r'], False)], pre='stale', threads=1))
         js.append(_job(prop, 'Build all, stale outputs', 'multi-dep', [(B, ['.'], False)], pre='stale', threads=4))
         js.append(_job(prop, 'Build all recursive, stale outputs', 'deep', [(B, ['.'], True)], pre='stale', threads=1))
     elif prop == 'C06':
@@ -602,6 +675,9 @@ def jobs(prop, tier):
         js.append(_job(prop, 'every %d-line source over the dependency menu: build, clean m only' % (G - 1), gen_small, [(B, ['m.txt'], False), (C, ['m.txt'], False)], pre='stale'))
         js.append(_job(prop, 'build all, clean sub only', 'chain', [(B, ['.'], True), (C, ['sub'], False)]))
     elif prop == 'C08':
+        js.append(_job(prop, 'dependencies with an empty fresh output over older non-empty ones', 'empty-dep', [(B, ['.'], False), (B, ['.'], False)], pre='stale'))
+        for md in (B, N):
+            js.append(_job(prop, '%s: one dependency already complete when the dependency list arrives' % md, 'multi-dep', [(md, ['x.txt', 'r'], False)], pre='stale', threads=1))
         for lay in ('chain', 'deep', 'multi-dep'):
             js.append(_job(prop, 'build twice from stale outputs', lay, [(B, ['.'], True), (B, ['.'], True)], pre='stale'))
     elif prop == 'C09':
@@ -633,7 +709,11 @@ def jobs(prop, tier):
                 js.append(_job(prop, 'inputs=%s trailing=%s' % (','.join(inp), tr), lay, [('Build', inp, rec)], trailing=tr))
         js.append(_job(prop, 'every %d-line source over the dependency menu, trailing=False' % G, gen, [(B, ['m.txt'], False)], trailing=False, pre='stale'))
         js.append(_job(prop, 'needed-build trailing=False', 'chain', [(N, ['.'], True)], trailing=False, pre='stale'))
-        js.append(_job(prop, 'build on, verify off must fail / build off, verify off', 'chain', [(B, ['m'], False), (V, ['m'], False)], trailing=False))
+        js.append(_job(prop, 'build off, verify off', 'chain', [(B, ['m'], False), (V, ['m'], False)], trailing=False))
+        js.append(_job(prop, 'build on, verify off must fail; build off; verify on must fail', 'chain',
+                       [(B, ['m'], False, True), (V, ['m'], False, False), (B, ['m'], False, False), (V, ['m'], False, True), (V, ['m'], False, False)]))
+        js.append(_job(prop, 'same for a source ending in a directive', 'deep',
+                       [(B, ['lib/sub/foot.html'], False, True), (V, ['lib/sub/foot.html'], False, False), (B, ['.'], True, False), (V, ['.'], True, True)]))
     elif prop == 'C15':
         js.append(_job(prop, 'directives documented inside a write block after a dependency', 'doc', [(B, ['doc.md'], False)]))
         js.append(_job(prop, 'same, whole directory', 'doc', [(B, ['.'], False)]))
